@@ -1304,8 +1304,9 @@ impl fmt::Display for Type2<'_> {
     match self {
       Type2::IntValue { value, .. } => write!(f, "{}", value),
       Type2::UintValue { value, .. } => write!(f, "{}", value),
-      Type2::FloatValue { value, .. } => write!(f, "{}", value),
-      Type2::TextValue { value, .. } => write!(f, "\"{}\"", value),
+      // {:?} keeps the decimal point or exponent, so that 1.0 is not printed as the integer 1
+      Type2::FloatValue { value, .. } => write!(f, "{:?}", value),
+      Type2::TextValue { value, .. } => write!(f, "\"{}\"", crate::token::escape_text(value)),
       Type2::UTF8ByteString { value, .. } => write!(
         f,
         "'{}'",
